@@ -179,3 +179,286 @@ Proof.
   - destruct ((i <? 0)%Z && (- Z.of_nat len <=? i)%Z)%bool eqn:B; [|discriminate].
     intro E. inversion E. apply andb_prop in B. destruct B as [B1 B2]. apply Z.ltb_lt in B1. apply Z.leb_le in B2. lia.
 Qed.
+
+(* ------------------------------------------------------------------------------------------- *)
+(* admissible operations: a unit that is added is not currently listed anywhere (moving a unit = removing
+   it and adding it again); everything else is unrestricted *)
+Definition unlisted (s : st) (u : uid) : Prop := par_of s u = None.
+
+Definition admissible (s : st) (o : op) : Prop :=
+  match o with
+  | NewUnit u _ _ => unlisted s u /\ kids_of s u = []
+  | Construct q us _ => unlisted s q /\ kids_of s q = [] /\ NoDup us /\ (forall u, In u us -> unlisted s u)
+  | Append _ u | Prepend _ u | Insert _ _ u => unlisted s u
+  | Extend _ us | IAdd _ us => NoDup us /\ (forall u, In u us -> unlisted s u)
+  | SetItem q i u =>
+      unlisted s u \/ (exists n, norm_index (length (kids_of s q)) i = Some n /\ nth n (kids_of s q) 0 = u)
+  | SetSlice _ _ _ us => NoDup us /\ (forall u, In u us -> unlisted s u)
+  | _ => True
+  end.
+
+Lemma unlisted_not_in s q u : Inv s -> unlisted s u -> ~ In u (kids_of s q).
+Proof. intros I U X. unfold unlisted in U. rewrite (inv_listed s I q u X) in U. discriminate. Qed.
+
+Ltac inr := repeat (rewrite in_app_iff in * || cbn [In] in *).
+
+Lemma inv_append s q u : Inv s -> unlisted s u -> Inv (update s q (kids_of s q ++ [u]) [] [u]).
+Proof.
+  intros I U. pose proof (unlisted_not_in s q u I U) as N. apply update_inv; try assumption.
+  - apply NoDup_app_iff. split; [apply (inv_nodup s I)|]. split; [repeat constructor; intros []|].
+    intros x Hx [E|[]]. subst. contradiction.
+  - intros x Hx. inr. intuition.
+  - intros x Hx. inr. destruct Hx as [E|[]]. subst. split; [tauto | left; exact U].
+  - intros x [].
+  - intros x Hx Nx. exfalso. apply Nx. inr. tauto.
+Qed.
+
+Lemma inv_insert s q u n : Inv s -> unlisted s u -> Inv (update s q (insert_at n (kids_of s q) u) [] [u]).
+Proof.
+  intros I U. pose proof (unlisted_not_in s q u I U) as N.
+  destruct (insert_at_split (kids_of s q) n u) as [l1 [l2 [E P]]]. rewrite P.
+  pose proof (inv_nodup s I q) as ND. rewrite E in ND, N. apply NoDup_app_iff in ND. destruct ND as [N1 [N2 Dj]].
+  apply update_inv; try assumption.
+  - apply NoDup_app_iff. split; [assumption|]. split.
+    + constructor; [|assumption]. intro X. apply N. inr. tauto.
+    + intros x Hx [Y|Y]; [subst; apply N; inr; tauto | apply (Dj x); assumption].
+  - intros x Hx. rewrite E. inr. intuition.
+  - intros x Hx. inr. destruct Hx as [Y|[]]. subst. split; [tauto | left; exact U].
+  - intros x [].
+  - intros x Hx Nx. exfalso. apply Nx. rewrite E in Hx. inr. tauto.
+Qed.
+
+Lemma inv_extend s q us : Inv s -> NoDup us -> (forall u, In u us -> unlisted s u) ->
+  Inv (update s q (kids_of s q ++ us) [] us).
+Proof.
+  intros I ND U. apply update_inv; try assumption.
+  - apply NoDup_app_iff. split; [apply (inv_nodup s I)|]. split; [assumption|].
+    intros x Hx Hy. apply (unlisted_not_in s q x I (U x Hy)). assumption.
+  - intros x Hx. inr. intuition.
+  - intros x Hx. split; [inr; tauto | left; apply U; assumption].
+  - intros x [].
+  - intros x Hx Nx. exfalso. apply Nx. inr. tauto.
+Qed.
+
+Lemma inv_remove_nth s q n : Inv s -> n < length (kids_of s q) ->
+  Inv (update s q (remove_nth n (kids_of s q)) [nth n (kids_of s q) 0] []).
+Proof.
+  intros I L. destruct (split_nth (kids_of s q) n L) as [l1 [l2 [E [_ [R _]]]]]. rewrite R.
+  set (x := nth n (kids_of s q) 0) in *.
+  pose proof (inv_nodup s I q) as ND. rewrite E in ND. apply NoDup_app_iff in ND. destruct ND as [N1 [N2 Dj]].
+  inversion N2 as [|? ? Nx N2']; subst.
+  apply update_inv; try assumption.
+  - apply NoDup_app_iff. split; [assumption|]. split; [assumption|]. intros y Hy Hz. apply (Dj y Hy). right. assumption.
+  - intros y Hy. right. rewrite E. inr. split; [tauto|]. intros [Y|[]]. subst y.
+    destruct Hy as [Hy|Hy]; [apply (Dj x Hy); left; reflexivity | contradiction].
+  - intros y [].
+  - intros y [Y|[]]. subst y. rewrite E. inr. tauto.
+  - intros y Hy Ny. rewrite E in Hy. inr. destruct Hy as [Hy|[Hy|Hy]]; [exfalso; apply Ny; tauto | left; assumption | exfalso; apply Ny; tauto].
+Qed.
+
+Lemma inv_setitem s q n u : Inv s -> n < length (kids_of s q) ->
+  (unlisted s u \/ nth n (kids_of s q) 0 = u) ->
+  Inv (update s q (replace_nth n (kids_of s q) u) [nth n (kids_of s q) 0] [u]).
+Proof.
+  intros I L HU. destruct (split_nth (kids_of s q) n L) as [l1 [l2 [E [_ [_ P]]]]]. rewrite P.
+  set (x := nth n (kids_of s q) 0) in *.
+  pose proof (inv_nodup s I q) as ND. rewrite E in ND. apply NoDup_app_iff in ND. destruct ND as [N1 [N2 Dj]].
+  inversion N2 as [|? ? Nx N2']; subst.
+  assert (NU : ~ In u l1 /\ ~ In u l2).
+  { destruct HU as [U|Eq].
+    - pose proof (unlisted_not_in s q u I U) as N. rewrite E in N. split; intro X; apply N; inr; tauto.
+    - subst u. split; [intro X; apply (Dj x X); left; reflexivity | assumption]. }
+  destruct NU as [NU1 NU2].
+  apply update_inv; try assumption.
+  - apply NoDup_app_iff. split; [assumption|]. split; [constructor; assumption|].
+    intros y Hy [Y|Y]; [subst; contradiction | apply (Dj y Hy); right; assumption].
+  - intros y Hy. inr. destruct Hy as [Hy|[Hy|Hy]]; [| left; tauto |].
+    + right. rewrite E. inr. split; [tauto|]. intros [Y|[]]. subst y. apply (Dj x Hy). left. reflexivity.
+    + right. rewrite E. inr. split; [tauto|]. intros [Y|[]]. subst y. contradiction.
+  - intros y [Y|[]]. subst y. split; [inr; tauto|]. destruct HU as [U|Eq]; [left; exact U | right; rewrite E; subst u; inr; tauto].
+  - intros y [Y|[]]. subst y. rewrite E. inr. tauto.
+  - intros y Hy Ny. rewrite E in Hy. inr. destruct Hy as [Hy|[Hy|Hy]]; [exfalso; apply Ny; tauto | left; assumption | exfalso; apply Ny; tauto].
+Qed.
+
+Lemma inv_slice s q lo hi us : Inv s -> lo <= hi -> NoDup us -> (forall u, In u us -> unlisted s u) ->
+  Inv (update s q (firstn lo (kids_of s q) ++ us ++ skipn hi (kids_of s q))
+              (firstn (hi - lo) (skipn lo (kids_of s q))) us).
+Proof.
+  intros I Le NDu U. pose proof (split_slice (kids_of s q) lo hi Le) as E.
+  set (l1 := firstn lo (kids_of s q)) in *. set (mid := firstn (hi - lo) (skipn lo (kids_of s q))) in *.
+  set (l2 := skipn hi (kids_of s q)) in *.
+  pose proof (inv_nodup s I q) as ND. rewrite E in ND. apply NoDup_app_iff in ND. destruct ND as [N1 [N23 D1]].
+  apply NoDup_app_iff in N23. destruct N23 as [Nm [N2 D2]].
+  assert (NU : forall u, In u us -> ~ In u l1 /\ ~ In u l2).
+  { intros u Hu. pose proof (unlisted_not_in s q u I (U u Hu)) as N. rewrite E in N. split; intro X; apply N; inr; tauto. }
+  apply update_inv; try assumption.
+  - apply NoDup_app_iff. split; [assumption|]. split.
+    + apply NoDup_app_iff. split; [assumption|]. split; [assumption|]. intros y Hy Hz. apply (proj2 (NU y Hy)). assumption.
+    + intros y Hy Hz. inr. destruct Hz as [Hz|Hz]; [apply (proj1 (NU y Hz)); assumption | apply (D1 y Hy); inr; tauto].
+  - intros y Hy. inr. destruct Hy as [Hy|[Hy|Hy]]; [| left; assumption |].
+    + right. split; [rewrite E; inr; tauto|]. intro X. apply (D1 y Hy). inr. tauto.
+    + right. split; [rewrite E; inr; tauto|]. intro X. apply (D2 y X). assumption.
+  - intros y Hy. split; [inr; tauto | left; apply U; assumption].
+  - intros y Hy. rewrite E. inr. tauto.
+  - intros y Hy Ny. rewrite E in Hy. inr. destruct Hy as [Hy|[Hy|Hy]]; [exfalso; apply Ny; tauto | assumption | exfalso; apply Ny; tauto].
+Qed.
+
+Lemma inv_remove_first s q u : Inv s -> In u (kids_of s q) ->
+  Inv (update s q (remove_first u (kids_of s q)) [u] []).
+Proof.
+  intros I Hu. destruct (remove_first_split u (kids_of s q) Hu) as [l1 [l2 [E R]]]. rewrite R.
+  pose proof (inv_nodup s I q) as ND. rewrite E in ND. apply NoDup_app_iff in ND. destruct ND as [N1 [N2 Dj]].
+  inversion N2 as [|? ? Nx N2']; subst.
+  apply update_inv; try assumption.
+  - apply NoDup_app_iff. split; [assumption|]. split; [assumption|]. intros y Hy Hz. apply (Dj y Hy). right. assumption.
+  - intros y Hy. right. rewrite E. inr. split; [tauto|]. intros [Y|[]]. subst y.
+    destruct Hy as [Hy|Hy]; [apply (Dj u Hy); left; reflexivity | contradiction].
+  - intros y [].
+  - intros y [Y|[]]. subst y. assumption.
+  - intros y Hy Ny. rewrite E in Hy. inr. destruct Hy as [Hy|[Hy|Hy]]; [exfalso; apply Ny; tauto | left; assumption | exfalso; apply Ny; tauto].
+Qed.
+
+Lemma inv_clear s q : Inv s -> Inv (update s q [] (kids_of s q) []).
+Proof.
+  intro I. apply update_inv; try assumption.
+  - constructor.
+  - intros y [].
+  - intros y [].
+  - tauto.
+  - tauto.
+Qed.
+
+Lemma inv_reverse s q : Inv s -> Inv (update s q (rev (kids_of s q)) [] []).
+Proof.
+  intro I. apply update_inv; try assumption.
+  - apply NoDup_rev. apply (inv_nodup s I).
+  - intros y Hy. right. split; [apply in_rev; assumption | intros []].
+  - intros y [].
+  - intros y [].
+  - intros y Hy Ny. exfalso. apply Ny. apply -> in_rev. assumption.
+Qed.
+
+Lemma inv_listcopy s q : Inv s -> Inv (update s q (kids_of s q) [] (kids_of s q)).
+Proof.
+  intro I. apply update_inv; try assumption.
+  - apply (inv_nodup s I).
+  - intros y Hy. left. assumption.
+  - intros y Hy. split; [assumption | right; assumption].
+  - intros y [].
+  - intros y Hy Ny. contradiction.
+Qed.
+
+Lemma slice_bounds_le len a b lo hi : slice_bounds len a b = (lo, hi) -> lo <= hi.
+Proof. unfold slice_bounds. intro E. inversion E. lia. Qed.
+
+Lemma inv_newunit s u k lb : Inv s -> unlisted s u -> kids_of s u = [] ->
+  Inv (fst (step s (NewUnit u k lb))).
+Proof.
+  intros [I1 I2 I3] U K. cbn [step fst]. unfold unlisted in U.
+  set (s' := {| kids := aset (kids s) u []; par := adel (par s) u; kinds := aset (kinds s) u k; labels := aset (labels s) u lb |}).
+  assert (KK : forall q, kids_of s' q = if Nat.eqb u q then [] else kids_of s q).
+  { intro q. unfold kids_of, s'. cbn [kids]. rewrite alookup_aset. destruct (Nat.eqb u q); reflexivity. }
+  assert (PP : forall v, par_of s' v = if Nat.eqb u v then None else par_of s v).
+  { intro v. unfold par_of, s'. cbn [par]. apply alookup_adel. }
+  split.
+  - intros q v. rewrite KK, PP. destruct (Nat.eqb_spec u q); [intros []|]. intro Hv.
+    destruct (Nat.eqb_spec u v); [subst v; rewrite (I1 q u Hv) in U; discriminate | apply I1; assumption].
+  - intros v q. rewrite KK, PP. destruct (Nat.eqb_spec u v); [discriminate|]. intro P.
+    destruct (Nat.eqb_spec u q); [subst q; pose proof (I2 v u P) as X; rewrite K in X; destruct X | apply I2; assumption].
+  - intro q. rewrite KK. destruct (Nat.eqb u q); [constructor | apply I3].
+Qed.
+
+Lemma inv_construct s q us lb : Inv s -> unlisted s q -> kids_of s q = [] -> NoDup us ->
+  (forall u, In u us -> unlisted s u) -> Inv (fst (step s (Construct q us lb))).
+Proof.
+  intros I Uq K ND U. cbn [step fst]. unfold unlisted in Uq.
+  set (s1 := {| kids := kids s; par := adel (par s) q; kinds := aset (kinds s) q KSeq; labels := aset (labels s) q lb |}).
+  assert (PP : forall v, par_of s1 v = if Nat.eqb q v then None else par_of s v).
+  { intro v. unfold par_of, s1. cbn [par]. apply alookup_adel. }
+  assert (KK : forall j, kids_of s1 j = kids_of s j) by reflexivity.
+  assert (I1' : Inv s1).
+  { destruct I as [I1 I2 I3]. split.
+    - intros j v. rewrite KK, PP. intro Hv. destruct (Nat.eqb_spec q v); [subst v; rewrite (I1 j q Hv) in Uq; discriminate | apply I1; assumption].
+    - intros v j. rewrite KK, PP. destruct (Nat.eqb q v); [discriminate | apply I2].
+    - intro j. rewrite KK. apply I3. }
+  apply update_inv; try assumption.
+  - intros u Hu. left. assumption.
+  - intros u Hu. split; [assumption|]. left. unfold unlisted in *. rewrite PP. destruct (Nat.eqb q u); [reflexivity | apply U; assumption].
+  - intros u [].
+  - intros u Hu. rewrite KK, K in Hu. destruct Hu.
+Qed.
+
+(* the operations covered by the invariant theorem (Flatten: see C13_flatten_partial) *)
+Definition covered (o : op) : Prop := match o with Flatten _ => False | _ => True end.
+
+Theorem step_inv s o : Inv s -> admissible s o -> covered o -> Inv (fst (step s o)).
+Proof.
+  intros I A C. destruct o; cbn [admissible covered] in A, C; try contradiction.
+  - destruct A as [A1 A2]. apply inv_newunit; assumption.
+  - destruct A as [A1 [A2 [A3 A4]]]. apply inv_construct; assumption.
+  - cbn [step fst]. apply inv_append; assumption.
+  - cbn [step fst]. apply (inv_insert s s0 u 0 I A).
+  - cbn [step fst]. apply inv_insert; assumption.
+  - cbn [step fst]. destruct A. apply inv_extend; assumption.
+  - cbn [step fst]. destruct A. apply inv_extend; assumption.
+  - cbn [step]. destruct (norm_index (length (kids_of s s0)) i) as [n|] eqn:E; cbn [fst]; [|assumption].
+    apply inv_setitem; [assumption | eapply norm_index_lt; eassumption|].
+    destruct A as [A|[n' [E' A]]]; [left; assumption | right; congruence].
+  - cbn [step]. destruct (slice_bounds (length (kids_of s s0)) a b) as [lo hi] eqn:E. cbn [fst].
+    destruct A. apply inv_slice; try assumption. eapply slice_bounds_le; eassumption.
+  - cbn [step]. destruct (norm_index (length (kids_of s s0)) i) as [n|] eqn:E; cbn [fst]; [|assumption].
+    apply inv_remove_nth; [assumption | eapply norm_index_lt; eassumption].
+  - cbn [step]. destruct (slice_bounds (length (kids_of s s0)) a b) as [lo hi] eqn:E. cbn [fst].
+    pose proof (inv_slice s s0 lo hi [] I (slice_bounds_le _ _ _ _ _ E) (NoDup_nil _) (fun u X => match X with end)) as P.
+    cbn [app] in P. exact P.
+  - cbn [step]. destruct (norm_index (length (kids_of s s0)) (match i with Some x => x | None => (-1)%Z end)) as [n|] eqn:E; cbn [fst]; [|assumption].
+    apply inv_remove_nth; [assumption | eapply norm_index_lt; eassumption].
+  - cbn [step]. destruct (mem u (kids_of s s0)) eqn:M; cbn [fst]; [|assumption].
+    apply inv_remove_first; [assumption | apply mem_In; assumption].
+  - cbn [step fst]. apply inv_clear; assumption.
+  - cbn [step]. destruct (norm_index (length (kids_of s s0)) i) as [n|] eqn:E; cbn [fst]; [|assumption].
+    apply inv_remove_nth; [assumption | eapply norm_index_lt; eassumption].
+  - cbn [step fst]. apply inv_listcopy; assumption.
+  - cbn [step fst]. apply inv_reverse; assumption.
+Qed.
+
+Fixpoint ok_run (s : st) (ops : list op) : Prop :=
+  match ops with [] => True | o :: r => admissible s o /\ covered o /\ ok_run (fst (step s o)) r end.
+
+Theorem run_inv ops : forall s, Inv s -> ok_run s ops -> Inv (fst (run s ops)).
+Proof.
+  induction ops as [|o r IH]; intros s I OK; cbn [run]; [exact I|].
+  destruct OK as [A [C OK]]. pose proof (step_inv s o I A C) as I1.
+  destruct (step s o) as [s1 x]. cbn [fst] in *. specialize (IH s1 I1 OK).
+  destruct (run s1 r) as [s2 xs]. exact IH.
+Qed.
+
+Lemma inv_init : Inv init.
+Proof. split; [intros q u [] | intros u q X; discriminate | intro q; constructor]. Qed.
+
+(* navigation agrees with the list order *)
+Lemma index_of_nth (l : list uid) : NoDup l -> forall n, n < length l -> index_of (@nth uid n l 0) l = Some n.
+Proof.
+  induction 1 as [|x l Hx Hl IH]; intros n L; cbn in L; [lia|].
+  destruct n as [|n]; cbn [nth index_of]; [rewrite Nat.eqb_refl; reflexivity|].
+  destruct (Nat.eqb_spec (nth n l 0) x) as [E|NE].
+  - exfalso. apply Hx. rewrite <- E. apply nth_In. lia.
+  - rewrite IH by lia. reflexivity.
+Qed.
+
+Theorem nav_agrees s q n : Inv s -> n < length (kids_of s q) ->
+  let u := nth n (kids_of s q) 0 in
+  par_of s u = Some q /\
+  prev_of s u = (match n with 0 => NErr IndexError | S m => NUnit (nth m (kids_of s q) 0) end) /\
+  next_of s u = (if Nat.eqb (S n) (length (kids_of s q)) then NErr IndexError else NUnit (nth (S n) (kids_of s q) 0)).
+Proof.
+  intros I L. cbv zeta.
+  assert (P : par_of s (nth n (kids_of s q) 0) = Some q) by (apply (inv_listed s I); apply nth_In; assumption).
+  split; [exact P|]. unfold prev_of, next_of. rewrite P.
+  rewrite (index_of_nth (kids_of s q) (inv_nodup s I q) n L). split; [destruct n; reflexivity | reflexivity].
+Qed.
+
+Theorem detached_has_no_parent s u : Inv s -> (forall q, ~ In u (kids_of s q)) -> par_of s u = None.
+Proof.
+  intros I N. destruct (par_of s u) as [q|] eqn:E; [|reflexivity]. exfalso. apply (N q). apply (inv_parent s I). assumption.
+Qed.
